@@ -1,5 +1,6 @@
 """C12 — decode errors are present, bounded and point into the input."""
 import collections
+import random
 from lib import common, rstage
 from lib.vals import *
 from checks.c03 import tree_tags, value_features, cb
@@ -84,6 +85,30 @@ KNOWN_CLASSES = {
 }
 
 
+def late_error_cases(seed, n):
+    """containers longer than the cap of ten reported errors whose only wrong element comes late (index 10 and beyond): the
+    value is rejected, so at least one error must be reported, and it must point at that element"""
+    r = random.Random(seed)
+    leaves = [(("Typeof", "string"), S("a"), I(1)), (("Typeof", "number"), I(2), S("x")), (("Typeof", "boolean"), B(True), NUL),
+              (("Const", "k"), S("k"), S("q")), (("Object", [("a", ("Typeof", "number"))], []), OBJ([("a", I(1))]), OBJ([("a", S("z"))]))]
+    cases = []
+    for i in range(n):
+        t, good, bad = r.choice(leaves)
+        length = r.choice([10, 11, 12, 15, 23])
+        pos = r.randrange(10, length + 1)
+        items = [good] * length
+        items.insert(pos, bad)
+        shape = i % 6
+        if shape == 0: rt, v = ("Array", t), ARR(items)
+        elif shape == 1: rt, v = ("Object", [("xs", ("Array", t))], []), OBJ([("xs", ARR(items))])
+        elif shape == 2: rt, v = ("Array", ("Array", t)), ARR([ARR([good])] * 11 + [ARR(items)])
+        elif shape == 3: rt, v = ("Tuple", [t], t), ARR(items)
+        elif shape == 4: rt, v = ("Array", ("Object", [("p", t)], [])), ARR([OBJ([("p", x)]) for x in items])
+        else: rt, v = ("AnyOf", [("Array", t), ("Typeof", "number")]), ARR(items)
+        cases.append({"env": [], "rt": rt, "vals": [v, ARR(items[:pos])] if shape in (0, 3, 5) else [v], "source": "late-error"})
+    return cases
+
+
 def check(run):
     ok = run.prove("Props.C12", THEOREMS, ["Props/C12.vo"])
     common.ensure_harness()
@@ -91,6 +116,7 @@ def check(run):
     cases = rstage.load_corpus("C12")
     cases += rstage.gen_cases(run.seed + 1201, 200 if quick else 3000, 6 if quick else 12, depth=3)
     cases += rstage.gen_forced(run.seed + 1202, 120 if quick else 2400, 8)
+    cases += late_error_cases(run.seed + 1203, 24 if quick else 300)
     rows = evaluate(cases)
     cov = run.coverage
     disagree = [r for r in rows if r["js"][:3] != r["model"]]
